@@ -31,16 +31,22 @@ structure Query where
   akinds : List String
   rkinds : List String
   bkinds : List String
+  wh : List (Ref × S1.Pred)       -- WHERE c1 AND … AND cn, every conjunct an S1 predicate over ONE of a, r, b (`[]`: no WHERE)
   items : List Item
 deriving Repr, DecidableEq, Inhabited
 
 def Query.name (q : Query) : Ref → String
   | .a => q.a | .r => q.r | .b => q.b
 
-/-- the three variables are distinct and every one of them is read by the RETURN (then the frame projects all three bindings) -/
+def isAnd : S1.Pred → Bool
+  | .and _ _ => true
+  | _ => false
+
+/-- the three variables are distinct and every one of them is read by the RETURN (then the frame projects all three bindings);
+no WHERE conjunct is itself a conjunction (the parser flattens `c1 AND (…)`-free conjunctions into one list) -/
 def Query.wf (q : Query) : Bool :=
   q.a != q.r && q.a != q.b && q.r != q.b && !q.items.isEmpty &&
-  q.items.any (·.ref == .a) && q.items.any (·.ref == .r) && q.items.any (·.ref == .b)
+  q.items.any (·.ref == .a) && q.items.any (·.ref == .r) && q.items.any (·.ref == .b) && q.wh.all (fun c => !isAnd c.2)
 
 -- ------------------------------------------------------------------ Cypher reading
 
@@ -49,10 +55,16 @@ def Item.toCy (q : Query) : Item → Cy.ProjItem
   | .idOf x al => ⟨.fn "id" false [.var (q.name x)], al⟩
   | .prop x k al => ⟨.prop (.var (q.name x)) k, al⟩
 
+def Query.whereCy (q : Query) : Option Cy.Expr :=
+  match q.wh with
+  | [] => none
+  | [c] => some (S1.Pred.toCy (q.name c.1) c.2)
+  | cs => some (.conj (cs.map (fun c => S1.Pred.toCy (q.name c.1) c.2)))
+
 def Query.toCy (q : Query) : Cy.Query :=
   { parts := []
     clauses := [.match false [.mk none false false (.mk (some q.a) q.akinds [])
-      [(.mk (some q.r) q.rkinds .out none [], .mk (some q.b) q.bkinds [])]] none]
+      [(.mk (some q.r) q.rkinds .out none [], .mk (some q.b) q.bkinds [])]] q.whereCy]
     ret := { distinct := false, all := false, items := q.items.map (Item.toCy q), orderBy := [], skip := none, limit := none } }
 
 -- ------------------------------------------------------------------ the emitted statement
@@ -67,12 +79,19 @@ def nodeCompositeOf (n : String) : Sql.Expr :=
 
 def kindsLit (ids : List Nat) : Sql.Expr := .lit (.ints (ids.map Int.ofNat)) "int2[]"
 
-/-- `[n.kind_ids @> array[…] and] n.id = e0.<endpoint>` -/
-def joinOn (n endpoint : String) (kindIds : Option (List Nat)) : Sql.Expr :=
+/-- `[constraint and] n.id = e0.<endpoint>` -/
+def joinOnC (n endpoint : String) (c : Option Sql.Expr) : Sql.Expr :=
   let eq := Sql.Expr.bin "=" (col n "id") (col "e0" endpoint)
-  match kindIds with
+  match c with
   | none => eq
-  | some ids => .bin "and" (.bin "operator (pg_catalog.@>)" (col n "kind_ids") (kindsLit ids)) eq
+  | some c => .bin "and" c eq
+
+/-- `n.kind_ids @> array[…]` -/
+def nodeKindsE (n : String) (kindIds : Option (List Nat)) : Option Sql.Expr :=
+  kindIds.map (fun ids => .bin "operator (pg_catalog.@>)" (col n "kind_ids") (kindsLit ids))
+
+/-- `[n.kind_ids @> array[…] and] n.id = e0.<endpoint>` (stage S2a: no WHERE) -/
+def joinOn (n endpoint : String) (kindIds : Option (List Nat)) : Sql.Expr := joinOnC n endpoint (nodeKindsE n kindIds)
 
 def frameName : Ref → String
   | .a => "n0" | .r => "e0" | .b => "n1"
@@ -87,20 +106,76 @@ def Item.tr (q : Query) : Item → Sql.Expr
 def kindIds? (km : KindMap) (ks : List String) : Option (Option (List Nat)) :=
   if ks.isEmpty then some none else (ks.mapM km.id?).map some
 
-def Query.tr (km : KindMap) (q : Query) : Option Sql.Stmt :=
+/-- the WHERE conjuncts that read `x`, in source order -/
+def Query.preds (q : Query) (x : Ref) : List S1.Pred := (q.wh.filter (fun c => c.1 == x)).map (·.2)
+
+/-- `c1 and (c2 and (… and cn))` — the conjuncts over one entity, lowered under its alias and re-joined right-nested -/
+def predsAnd (km : KindMap) (t : String) (edge : Bool) : List S1.Pred → Option Sql.Expr
+  | [] => none
+  | [p] => S1.Pred.trAt km t edge p
+  | p :: ps => do let a ← S1.Pred.trAt km t edge p; let b ← predsAnd km t edge ps; pure (.bin "and" a b)
+
+/-- … parenthesised as a whole: `(c1 and c2 …)`; `some none`: the entity has no conjunct -/
+def predsE (km : KindMap) (t : String) (edge : Bool) (ps : List S1.Pred) : Option (Option Sql.Expr) :=
+  if ps.isEmpty then some none else (predsAnd km t edge ps).map (fun e => some (.paren e))
+
+/-- `(user conjuncts) and kind constraint`, either part may be absent -/
+def both : Option Sql.Expr → Option Sql.Expr → Option Sql.Expr
+  | none, k => k
+  | some p, none => some p
+  | some p, some k => some (.bin "and" p k)
+
+-- selectivity score of `optimize.SelectivityModel.Measure` on the lowered node constraints (weights of selectivity.go)
+def propSel (k : String) : Int := if k == "objectid" || k == "name" then 100 else if k == "system_tags" then 30 else 0
+
+def predSel : S1.Pred → Int
+  | .propEqStr k _ => 5 + (30 + propSel k) + (30 + propSel k)
+  | .propEqInt neg k _ => (if neg then 0 else 30) + propSel k      -- `<>` is pgsql.OperatorCypherNotEquals: no weight
+  | .propIsNull k => -100 + (30 + propSel k)
+  | .propNotNull k => 5 - (30 + propSel k)
+  | .idCmp .eq _ => 155
+  | .idCmp .ne _ => 0
+  | .idCmp _ _ => 10
+  | .kinds _ => 35
+  | .and p q => 5 + predSel p + predSel q
+  | .or p q => -100 + predSel p + predSel q
+  | .not p => - predSel p
+  | .paren p => predSel p
+
+def nodeSel (ps : List S1.Pred) (kinds : List String) : Int :=
+  let p : Int := match ps with
+    | [] => 0
+    | p :: rest => rest.foldl (fun acc x => 5 + acc + predSel x) (predSel p)
+  if kinds.isEmpty then p else if ps.isEmpty then 35 else 5 + p + 35
+
+/-- `PatternConstraints.OptimizePatternConstraintBalance`: flip when the right node's constraint scores at least 30 more than the left's -/
+def Query.flipSel (q : Query) : Bool := decide (nodeSel (q.preds .b) q.bkinds - nodeSel (q.preds .a) q.akinds ≥ 30)
+
+/-- the lowering plan's `TraversalDirectionSelection` decision: the right node is constrained (kinds or an attached conjunct), the left is not -/
+def Query.flipPlan (q : Query) : Bool :=
+  (!q.bkinds.isEmpty || !(q.preds .b).isEmpty) && !(!q.akinds.isEmpty || !(q.preds .a).isEmpty)
+
+/-- the statement with the join order given: `flip` = the right node is joined first -/
+def Query.trWith (km : KindMap) (q : Query) (flip : Bool) : Option Sql.Stmt :=
   if !q.wf then none else
-  match kindIds? km q.akinds, kindIds? km q.rkinds, kindIds? km q.bkinds with
-  | some ka, some kr, some kb =>
-    let ja : Sql.Join := .mk .inner (.table ["node"] (some "n0")) (some (joinOn "n0" "start_id" ka))
-    let jb : Sql.Join := .mk .inner (.table ["node"] (some "n1")) (some (joinOn "n1" "end_id" kb))
-    -- the more constrained endpoint is joined first
-    let joins := if ka.isNone && kb.isSome then [jb, ja] else [ja, jb]
-    let wh : Option Sql.Expr := kr.map (fun ids => .bin "=" (col "e0" "kind_id") (.anyOf (kindsLit ids)))
+  match kindIds? km q.akinds, kindIds? km q.rkinds, kindIds? km q.bkinds,
+        predsE km "n0" false (q.preds .a), predsE km "e0" true (q.preds .r), predsE km "n1" false (q.preds .b) with
+  | some ka, some kr, some kb, some pa, some pr, some pb =>
+    let ja : Sql.Join := .mk .inner (.table ["node"] (some "n0")) (some (joinOnC "n0" "start_id" (both pa (nodeKindsE "n0" ka))))
+    let jb : Sql.Join := .mk .inner (.table ["node"] (some "n1")) (some (joinOnC "n1" "end_id" (both pb (nodeKindsE "n1" kb))))
+    let joins := if flip then [jb, ja] else [ja, jb]
+    let wh : Option Sql.Expr := both pr (kr.map (fun ids => .bin "=" (col "e0" "kind_id") (.anyOf (kindsLit ids))))
     some (.query (.mk false
       [.mk "s0" none none (Sql.Query.simple (.select false [edgeComposite, nodeCompositeOf "n0", nodeCompositeOf "n1"]
         [.mk (.table ["edge"] (some "e0")) joins] wh [] none))]
       (.select false (q.items.map (Item.tr q)) [.mk (.table ["s0"] none) []] none [] none) [] none none))
-  | _, _, _ => none
+  | _, _, _, _, _, _ => none
+
+/-- what `Translate` emits (optimiser on): the plan's direction decision, else the selectivity balance -/
+def Query.tr (km : KindMap) (q : Query) : Option Sql.Stmt := q.trWith km (q.flipPlan || q.flipSel)
+
+/-- what `TranslateUnoptimized` emits: the selectivity balance only -/
+def Query.trUnopt (km : KindMap) (q : Query) : Option Sql.Stmt := q.trWith km q.flipSel
 
 end Dawgs.C01.S2
 
@@ -117,27 +192,53 @@ def itemOf2 (a r b : String) (it : Cy.ProjItem) : Option S2.Item :=
   | .prop (.var v) k => (refOf2 a r b v).map (fun x => .prop x k it.alias)
   | _ => none
 
-/-- the S2a reading of a parsed query, if it has one -/
+/-- one WHERE conjunct: an S1 predicate over exactly one of the three variables (tried in the order a, r, b; the names are distinct) -/
+def conjunctOf2 (a r b : String) (e : Cy.Expr) : Option (S2.Ref × S1.Pred) :=
+  match predOf a e with
+  | some p => some (.a, p)
+  | none =>
+    match predOf r e with
+    | some p => some (.r, p)
+    | none => (predOf b e).map (fun p => (.b, p))
+
+def whereOf2 (a r b : String) : Option Cy.Expr → Option (List (S2.Ref × S1.Pred))
+  | none => some []
+  | some (.conj es) => if es.length < 2 then none else es.mapM (conjunctOf2 a r b)
+  | some e => (conjunctOf2 a r b e).map (fun c => [c])
+
+/-- the S2 reading of a parsed query (one directed hop, optional WHERE of single-variable conjuncts), if it has one -/
 def ofCy2 (q : Cy.Query) : Option S2.Query :=
   match q.parts, q.clauses with
-  | [], [.match false [.mk none false false (.mk (some a) akinds []) [(.mk (some r) rkinds .out none [], .mk (some b) bkinds [])]] none] =>
+  | [], [.match false [.mk none false false (.mk (some a) akinds []) [(.mk (some r) rkinds .out none [], .mk (some b) bkinds [])]] wh] =>
     if q.ret.distinct || q.ret.all || !q.ret.orderBy.isEmpty || q.ret.skip.isSome || q.ret.limit.isSome then none else do
+    let cs ← whereOf2 a r b wh
     let items ← q.ret.items.mapM (itemOf2 a r b)
-    let s : S2.Query := ⟨a, r, b, akinds, rkinds, bkinds, items⟩
+    let s : S2.Query := ⟨a, r, b, akinds, rkinds, bkinds, cs, items⟩
     if s.wf then pure s else none
   | _, _ => none
 
-/-- executable form of `GraphOK2` (adds: relationship ids unique, every relationship kind known to the kind map) -/
+/-- executable form of `GraphOK2` (adds: relationship ids unique, every relationship kind known to the kind map, no relationship property stored as JSON null) -/
 def graphOK2b (km : KindMap) (g : Graph) : Bool :=
-  graphOKb km g && decide ((g.edges.map (·.id)).Nodup) && g.edges.all (fun e => (km.id? e.kind).isSome)
+  graphOKb km g && decide ((g.edges.map (·.id)).Nodup) && g.edges.all (fun e => (km.id? e.kind).isSome) &&
+    g.edges.all (fun e => e.props.all (fun p => !Json.isNull p.2))
 
-/-- THE MODEL TRANSLATOR over both proved stages (S1: one node pattern; S2a: one directed hop); `none` elsewhere -/
-def tr2 (km : KindMap) (q : Cy.Query) : Option (Sql.Stmt × List (String × Val)) :=
+/-- THE MODEL TRANSLATOR over both proved stages (S1: one node pattern; S2: one directed hop with WHERE), `none` elsewhere. The join
+order of the hop is chosen by the real translator with a selectivity heuristic over its Go syntax tree (pointer-typed nodes only) that the
+reflection rendering does not determine; the model therefore takes the choice as a PARAMETER `flipOf`, and every theorem about `tr2F`
+holds for every choice -/
+def tr2F (flipOf : S2.Query → Bool) (km : KindMap) (q : Cy.Query) : Option (Sql.Stmt × List (String × Val)) :=
   match tr km q with
   | some r => some r
   | none =>
     match ofCy2 q with
-    | some s => (s.tr km).map (fun st => (st, []))
+    | some s => (s.trWith km (flipOf s)).map (fun st => (st, []))
     | none => none
+
+/-- the model's own approximation of the direction choice with the optimiser on (exact on stage S2a; see `tr2F`) -/
+def flipOpt (s : S2.Query) : Bool := s.flipPlan || s.flipSel
+/-- … and with the optimiser off -/
+def flipUnopt (s : S2.Query) : Bool := s.flipSel
+
+def tr2 (km : KindMap) (q : Cy.Query) : Option (Sql.Stmt × List (String × Val)) := tr2F flipOpt km q
 
 end Dawgs.C01
